@@ -6,6 +6,7 @@ import shutil
 import uuid
 
 from .. import boot, cborlite as cb, crypto_oracle as CO, f4, grammar as G, ihex, sut
+from .. import hexcheck
 from ..run import Acc, Violation, run_given
 
 ID = "C07"
@@ -291,7 +292,7 @@ def check_output(out, written, items, soc, base):
     if written != want_files:
         return [f"files written {written}, expected {want_files}"]
     for dom, slots in by_domain.items():
-        mem = ihex.read(os.path.join(out, f"suit_installed_envelopes_{dom}_merged.hex"))
+        mem = hexcheck.read(os.path.join(out, f"suit_installed_envelopes_{dom}_merged.hex"), "storage image")
         want_addrs = set()
         for off, size, it in slots:
             want_addrs.update(range(base + off, base + off + size))
